@@ -12,7 +12,7 @@ namespace Echse.Ical
 completes comes out of the ordinary `drain` loop (verb from the METHOD, verb-less ones passed over), not out of
 the last pull (the same verb marked: `L`, `LU`, `LR`) as in `finish`; see `finishEof_modL` below -/
 def finishEof (A : Abs) (ins : List Instr) : List Instr × List (List Byte) :=
-  if A.sc.pend = true ∧ A.cur ≠ [] then
+  if A.sc.pend = true ∧ A.cur ≠ [] ∧ A.cur.length < stashSize then
     (match (procLine A.comp A.cur).2 with
       | .ve =>
         if verbOf (procLine A.comp A.cur).1.meth (procLine A.comp A.cur).1.cur == "X" then ins
@@ -29,7 +29,7 @@ theorem finishEof_log (A : Abs) (ins : List Instr) : (finishEof A ins).2 = (fini
 
 /-- the instructions differ from `finish` only if the pending last line completes an event -/
 theorem finishEof_eq (A : Abs) (ins : List Instr)
-    (h : ¬ (A.sc.pend = true ∧ A.cur ≠ [] ∧ (procLine A.comp A.cur).2 = .ve)) :
+    (h : ¬ (A.sc.pend = true ∧ A.cur ≠ [] ∧ A.cur.length < stashSize ∧ (procLine A.comp A.cur).2 = .ve)) :
     finishEof A ins = finish A ins := by
   unfold finishEof finish
   split
@@ -37,14 +37,12 @@ theorem finishEof_eq (A : Abs) (ins : List Instr)
     cases hr : (procLine A.comp A.cur).2 with
     | none => rfl
     | eop => rfl
-    | ve => exact absurd ⟨hc.1, hc.2, hr⟩ h
+    | ve => exact absurd ⟨hc.1, hc.2.1, hc.2.2, hr⟩ h
   · rfl
 
 theorem stashRest_eolp (p : Parser) (h : p.eolp = false) : (stashRest p false).1.eolp = false := by
-  unfold stashRest; dsimp only
-  split
-  · exact h
-  · split <;> simp [h]
+  show ((copyRest p).eolp || false) = false
+  rw [copyRest_eolp, h]; rfl
 
 theorem rest_of_buf_nil (p : Parser) (hb : p.buf = []) : rest p = [] := by
   unfold rest; rw [hb]; simp
@@ -85,7 +83,8 @@ theorem eof_spec (q : Parser) (A : Abs) (hrel : Rel q A) (ins : List Instr) :
   generalize hp0 : ({ q with buf := [], bix := 0 } : Parser) = p0
   have hbuf : p0.buf = [] := by rw [← hp0]
   have hbix : p0.bix = 0 := by rw [← hp0]
-  have hst : p0.stash = A.cur := by rw [← hp0]; exact hrel.stash
+  have hfits : A.cur.length < stashSize → p0.skip = false ∧ p0.stash = A.cur := by rw [← hp0]; exact hrel.fits
+  have hover : stashSize ≤ A.cur.length → p0.skip = true ∧ p0.stash = [] := by rw [← hp0]; exact hrel.over
   have hco : p0.comp = A.comp := by rw [← hp0]; exact hrel.comp
   have hlo : p0.log = A.log := by rw [← hp0]; exact hrel.log
   have hmk : p0.eolp = true ↔ A.sc.pend = true := by rw [← hp0]; exact hrel.mark
@@ -94,6 +93,18 @@ theorem eof_spec (q : Parser) (A : Abs) (hrel : Rel q A) (ins : List Instr) :
     have hnf : ¬ Fold (bpOf p0) := by
       unfold bpOf; rw [hbuf, hbix]; decide
     have hmu : mu p0 < 2 := by have := mu_le p0; rw [hbuf] at this; simp at this; omega
+    by_cases hfit : A.cur.length < stashSize
+    case neg =>
+      -- the last line does not fit: passed over
+      have hk := (hover (by omega)).1
+      rw [drain_round 2 p0 ins hmu, round_marked_skip p0 ⟨hm, hnf⟩ hk]
+      dsimp only
+      rw [eof_unmarked 2 ({ unmark p0 with skip := false, stash := [] } : Parser) ins (by omega) hbuf rfl]
+      unfold finishEof
+      rw [if_neg (fun hx => by omega)]
+      show (ins, p0.log) = _
+      rw [hlo]
+    obtain ⟨hk, hst⟩ := hfits hfit
     by_cases hs : p0.stash.length ≠ 0
     · have hcur : A.cur ≠ [] := by
         rw [← hst]; intro hx; rw [hx] at hs; exact hs rfl
@@ -105,9 +116,9 @@ theorem eof_spec (q : Parser) (A : Abs) (hrel : Rel q A) (ins : List Instr) :
         rw [doProc_log]; show p0.log ++ [p0.stash.takeWhile (· ≠ 0)] = _; rw [hlo, hst]
       have hb1 : (doProc (unmark p0)).1.buf = [] := hbuf
       have he1 : (doProc (unmark p0)).1.eolp = false := rfl
-      rw [drain_round 2 p0 ins hmu, round_marked p0 ⟨hm, hnf⟩ hs]
+      rw [drain_round 2 p0 ins hmu, round_marked p0 ⟨hm, hnf⟩ hk hs]
       unfold finishEof
-      rw [if_pos ⟨hpend, hcur⟩]
+      rw [if_pos ⟨hpend, hcur, hfit⟩]
       unfold procRes
       cases hr : (procLine A.comp A.cur).2 with
       | none =>
@@ -127,11 +138,11 @@ theorem eof_spec (q : Parser) (A : Abs) (hrel : Rel q A) (ins : List Instr) :
           unfold mkInstr; rw [hcomp]
     · have hcur : A.cur = [] := by
         rw [← hst]; exact List.eq_nil_of_length_eq_zero (by omega)
-      rw [drain_round 2 p0 ins hmu, round_marked_empty p0 ⟨hm, hnf⟩ hs]
+      rw [drain_round 2 p0 ins hmu, round_marked_empty p0 ⟨hm, hnf⟩ hk hs]
       dsimp only
       rw [eof_unmarked 2 (unmark p0) ins (by omega) hbuf rfl]
       unfold finishEof
-      rw [if_neg (fun hx => hx.2 hcur)]
+      rw [if_neg (fun hx => hx.2.1 hcur)]
       show (ins, p0.log) = _
       rw [hlo]
   · have he : p0.eolp = false := by
@@ -146,9 +157,9 @@ theorem eof_spec (q : Parser) (A : Abs) (hrel : Rel q A) (ins : List Instr) :
 
 /-- `feed` over any chunking of a non-empty input, with a trailing empty push -/
 theorem feed_spec_eof (chunks : List (List Byte)) (hne : ∀ c ∈ chunks, c ≠ []) (hbs : chunks.flatten ≠ [])
-    (hg : Good {} chunks.flatten) (hb : ∀ c ∈ chunks.flatten, c ≠ BSL) :
+    (hb : ∀ c ∈ chunks.flatten, c ≠ BSL) :
     feed (chunks ++ [[]]) = finishEof (runA {} chunks.flatten) (runA {} chunks.flatten).ins := by
-  have hinv := feedFold_inv chunks (none, []) [] (Or.inl ⟨rfl, rfl⟩) hne hg hb
+  have hinv := feedFold_inv chunks (none, []) [] (Or.inl ⟨rfl, rfl⟩) hne hb
   rw [List.nil_append] at hinv
   rw [feed_eq, List.foldl_append, List.foldl_cons, List.foldl_nil]
   cases hinv with
